@@ -40,7 +40,7 @@ Adopt(t) ==
                     IF i <= Len(t.routes) /\ Shape(t)[i] = Ev.routes[i] THEN t.routes[i]
                     ELSE [key |-> Ev.routes[i][1], rtype |-> Ev.routes[i][2], nd |-> Ev.routes[i][3], why |-> {}]],
      aggs |-> [i \in 1..Ev.na |-> IF i <= Len(t.aggs) THEN t.aggs[i] ELSE {}],
-     nb |-> Ev.nb, nw |-> Ev.nw]
+     nb |-> Ev.nb, nw |-> Ev.nw, cfg |-> t.cfg]
 
 TInit == l = 1 /\ table = EmptyTable
 
@@ -49,6 +49,7 @@ THist == Is("hist") /\ table' = EmptyTable
 TApply ==
     /\ Is("apply")
     /\ IsCommand(Ev.cmd)
+    /\ (FirstOnly(Ev.cmd) => table = EmptyTable)
     /\ Ev.res \in {"acc", "rej"}
     /\ LET t2 == IF Ev.cmd.op = "garbage" THEN Adopt(table)
                  ELSE IF Ev.res = "acc" THEN Do(Ev.cmd, table) ELSE table
